@@ -64,8 +64,13 @@ def jobs(tier, seed):
                     trees.append(out_t)
     # group trees into jobs of ~12 to amortise start-up
     chunk = 12
-    for i in range(0, len(trees), chunk):
-        out.append({"id": f"trees/{i // chunk:03d}", "fam": "trees", "trees": trees[i: i + chunk]})
+    small = [t for t in trees if X.count_ops(t) <= 2]
+    big = [t for t in trees if X.count_ops(t) > 2]
+    for i in range(0, len(small), chunk):
+        out.append({"id": f"trees/{i // chunk:03d}", "fam": "trees", "trees": small[i: i + chunk]})
+    # larger trees: two renderings and three contexts (all renderings / contexts are covered on the small trees)
+    for i in range(0, len(big), chunk * 2):
+        out.append({"id": f"trees3/{i // (chunk * 2):03d}", "fam": "trees", "trees": big[i: i + chunk * 2], "styles": ["min", "sp"], "contexts": ["str", "dl", "if"]})
     maxd = {"dec": 5, "hex": 4, "bin": 6} if tier == "quick" else {"dec": 6, "hex": 5, "bin": 8}
     for base, mx in maxd.items():
         for n in range(1, mx + 1):
@@ -116,8 +121,8 @@ def run(spec, cx):
     fam = spec["fam"]
     if fam == "trees":
         ti = _pick(cx.choice("tree", list(range(len(spec["trees"])))))
-        style = _pick(cx.choice("style", STYLES))
-        ctx = _pick(cx.choice("ctx", CONTEXTS))
+        style = _pick(cx.choice("style", spec.get("styles", STYLES)))
+        ctx = _pick(cx.choice("ctx", spec.get("contexts", CONTEXTS)))
         t = _tree(spec["trees"][ti])
         text = X.render(t, style)
         names = sorted(set(X.leaves(t)))
